@@ -11,14 +11,30 @@ def homogeneous(P, W):
     return [[c * w for c in p] + [w] for p, w in zip(P, W)]
 
 
-def make(d, mode="w", normalize=None, **kwargs):
+def scribble(inputs, knots=True):
+    """Overwrite, in place, every list that was handed to the setters while the object was built (the caller re-uses its
+    own lists).  ``knots=False`` leaves the knot vector lists alone."""
+    def go(x):
+        for i, v in enumerate(x):
+            if isinstance(v, list):
+                go(v)
+            else:
+                x[i] = v * 0.5 + 7.0
+    for name, lst in inputs.items():
+        if knots or not name.startswith("kv"):
+            go(lst)
+
+
+def make(d, mode="w", normalize=None, inputs=None, **kwargs):
     """Build the geomdl object for a definition.  mode 'w': set homogeneous points through set_ctrlpts;
-    mode 'pw': ctrlpts setter then weights setter (rational only)."""
+    mode 'pw': ctrlpts setter then weights setter (rational only); mode 'wp': weights first, the ctrlpts setter last.
+    ``inputs``: a dict that receives the list objects handed to the setters (for build.scribble)."""
     mod = NURBS if d["rational"] else BSpline
     cls = {"curve": mod.Curve, "surface": mod.Surface, "volume": mod.Volume}[d["kind"]]
     norm = d.get("normalize", True) if normalize is None else normalize
     obj = cls(normalize_kv=norm, **kwargs)
     degs, szs = d["degree"], d["size"]
+    inputs = {} if inputs is None else inputs
     if d["kind"] == "curve":
         obj.degree = degs[0]
     elif d["kind"] == "surface":
@@ -28,23 +44,36 @@ def make(d, mode="w", normalize=None, **kwargs):
     if d["rational"]:
         if mode in ("pw", "pww"):
             if d["kind"] == "curve":
-                obj.ctrlpts = [list(p) for p in d["P"]]
+                inputs["P"] = [list(p) for p in d["P"]]
+                obj.ctrlpts = inputs["P"]
             else:
                 # surfaces/volumes need the sizes: seed with unit weights via set_ctrlpts, then the views
-                obj.set_ctrlpts(homogeneous(d["P"], [1.0] * len(d["P"])), *szs)
+                inputs["Pw"] = homogeneous(d["P"], [1.0] * len(d["P"]))
+                obj.set_ctrlpts(inputs["Pw"], *szs)
             if mode == "pww":
                 obj.weights = [2.0 + 0.5 * (i % 3) for i in range(len(d["W"]))]      # a first, different set of weights
-            obj.weights = list(d["W"])
+            inputs["W"] = list(d["W"])
+            obj.weights = inputs["W"]
+        elif mode == "wp":
+            # other points with the final weights first, then the unweighted control points through their setter (last writer)
+            obj.set_ctrlpts(homogeneous([[c * 0.5 - 1.0 for c in p] for p in d["P"]], d["W"]), *szs)
+            inputs["P"] = [list(p) for p in d["P"]]
+            obj.ctrlpts = inputs["P"]
         else:
-            obj.set_ctrlpts(homogeneous(d["P"], d["W"]), *szs)
+            inputs["Pw"] = homogeneous(d["P"], d["W"])
+            obj.set_ctrlpts(inputs["Pw"], *szs)
     else:
-        obj.set_ctrlpts([list(p) for p in d["P"]], *szs)
+        inputs["P"] = [list(p) for p in d["P"]]
+        obj.set_ctrlpts(inputs["P"], *szs)
     if d["kind"] == "curve":
-        obj.knotvector = list(d["kv"][0])
+        inputs["kv0"] = list(d["kv"][0])
+        obj.knotvector = inputs["kv0"]
     elif d["kind"] == "surface":
-        obj.knotvector_u, obj.knotvector_v = list(d["kv"][0]), list(d["kv"][1])
+        inputs["kv0"], inputs["kv1"] = list(d["kv"][0]), list(d["kv"][1])
+        obj.knotvector_u, obj.knotvector_v = inputs["kv0"], inputs["kv1"]
     else:
-        obj.knotvector_u, obj.knotvector_v, obj.knotvector_w = [list(k) for k in d["kv"]]
+        inputs["kv0"], inputs["kv1"], inputs["kv2"] = [list(k) for k in d["kv"]]
+        obj.knotvector_u, obj.knotvector_v, obj.knotvector_w = inputs["kv0"], inputs["kv1"], inputs["kv2"]
     return obj
 
 
